@@ -300,7 +300,7 @@ def run(tier, v):
         c = cases[rr["case"]]
         if rr.get("unrealised"):
             continue
-        if rr.get("desync"):
+        if rr.get("desync") and c["exp"]["cls"] == "ok":
             raise vlib.Infra("MBT witness %s did not reproduce its field lengths: %s" % (c["w"], rr))
         broken, diff = _mbt_judge(c["exp"], rr["obs"], rr.get("fz", False))
         if broken or diff:
